@@ -385,17 +385,59 @@ KeSyms == IF Wide THEN KeSymsWide ELSE KeSymsNarrow
 KeTerms == {"eom", "unkc", "warn", "err0", "err1", "err2", "err9", "eof0", "eofh", "eofb"}
 KeTermsSrv == {"eom", "unkc", "err1", "eof0", "eofh", "eofb"}
 
-CkCount(sym) == CASE sym \in {"ck1n", "ck1s", "ck1h"} -> 1 [] sym = "ck2n" -> 2
+\* ---- the DECLARED BODY LENGTH of a record, independently of its type, and the critical bit
+\* A length-variant record symbol is "<type>.<len>.<crit>":
+\*   type  np (1) | err (2) | warn (3) | aead (4) | ck (5) | srv (6) | port (7) | unk (>= 1024)
+\*   len   fixed-size types (np, err, warn, aead, port): 0 | 1 | 2 | 3 | 4 | big (40) -- as many body bytes
+\*         follow as declared (filler 0xFF where the length is not 2);
+\*         variable types (ck, srv, unk): 0 | 1 | typ | beyond (more declared than bytes follow: the
+\*         writer closes inside the body)
+\*   crit  c | n   the critical bit
+\* ReadData as written: after the 4-byte header, np / aead / port / err consume TWO bytes whatever
+\* BodyLen says; ck / srv / unknown (warn is unknown to it) consume BodyLen bytes; the critical bit is
+\* looked at for unknown types only.  A two-byte reader on a body that is not two bytes long leaves the
+\* reader out of step with the writer's record boundaries ("skewed").
+KeSym(t, l, cr) == t \o "." \o l \o "." \o cr
+KeCrits == {"c", "n"}
+KeFixLens == {"0", "1", "2", "3", "4", "big"}
+KeTwoByteTypes == {"np", "aead", "port"}
+\* (the symbols of the plain alphabet are particular members: np = np.2.c, aead = aead.2.c, port = port.2.n,
+\* warnnc = warn.2.n, srv = srv.typ.n, ck1n = ck.typ.n, unk = unk.typ.n; they are not repeated)
+KeLvTwoByte == {KeSym(t, l, cr) : t \in KeTwoByteTypes, l \in KeFixLens, cr \in KeCrits} \ {"np.2.c", "aead.2.c", "port.2.n"}
+KeLvSkew == {KeSym(t, l, cr) : t \in KeTwoByteTypes, l \in KeFixLens \ {"2"}, cr \in KeCrits}
+KeLvWarn == {KeSym("warn", l, "n") : l \in KeFixLens \ {"2"}}
+KeLvCk   == {"ck.0.n", "ck.0.c", "ck.1.n", "ck.1.c", "ck.typ.c"}
+KeLvSrv  == {"srv.0.n", "srv.0.c", "srv.1.n", "srv.1.c", "srv.typ.c"}
+KeLvUnk  == {"unk.0.n", "unk.1.n"}
+KeLvSyms == KeLvTwoByte \cup KeLvWarn \cup KeLvCk \cup KeLvSrv \cup KeLvUnk
+\* length-variant records behind which ReadData returns an error whatever follows: an error record
+\* (two bytes or EOF, then an error), an unknown type with the critical bit, a body declared beyond the end
+KeLvTerms == {KeSym("err", l, cr) : l \in KeFixLens, cr \in KeCrits}
+             \cup {KeSym("warn", l, "c") : l \in KeFixLens \ {"2"}}
+             \cup {"unk.0.c", "unk.1.c", "ck.beyond.n", "ck.beyond.c", "srv.beyond.n", "srv.beyond.c"}
+KeIsLv(x) == x \in KeLvSyms \cup KeLvTerms
+KeHasLv(ke) == \E i \in DOMAIN ke : ke[i] \in KeLvSyms
+\* the reader is out of step: what it takes for the next header are body bytes (or it has eaten the header)
+KeSkewed(ke) == \E i \in DOMAIN ke : ke[i] \in KeLvSkew
+\* the plain records that accompany a length-variant one in the reduced (quick) alphabets
+KeLvCompanions == {"np", "aead", "ck1n", "ck8n"}
+
+CkCount(sym) == CASE sym \in {"ck1n", "ck1s", "ck1h"} \cup KeLvCk -> 1 [] sym = "ck2n" -> 2
                   [] sym \in {"ck8n", "ck8z"} -> 8 [] sym = "ck9n" -> 9 [] OTHER -> 0
-CkSize(sym) == CASE sym \in {"ck1n", "ck2n", "ck8n", "ck9n"} -> 124 [] sym = "ck1s" -> 16
-                  [] sym = "ck8z" -> 0 [] sym = "ck1h" -> 1000 [] OTHER -> 0
+CkSize(sym) == CASE sym \in {"ck1n", "ck2n", "ck8n", "ck9n", "ck.typ.c"} -> 124 [] sym = "ck1s" -> 16
+                  [] sym = "ck8z" -> 0 [] sym = "ck1h" -> 1000 [] sym \in {"ck.1.n", "ck.1.c"} -> 1 [] OTHER -> 0
 RECURSIVE KeCookies(_)
 KeCookies(ke) == IF ke = << >> THEN 0 ELSE CkCount(Head(ke)) + KeCookies(Tail(ke))
 KeFirstCookieSize(ke) == CkSize(ke[CHOOSE i \in DOMAIN ke : CkCount(ke[i]) > 0 /\ \A k \in DOMAIN ke : CkCount(ke[k]) > 0 => i <= k])
-KeAlgo(ke) == LET A == {i \in DOMAIN ke : ke[i] \in {"aead", "aeadx"}} IN
+\* data.Algo / data.Server: the last record of the type wins
+KeAlgoSyms == {"aead", "aeadx", "aead.2.n"}
+KeAlgo(ke) == LET A == {i \in DOMAIN ke : ke[i] \in KeAlgoSyms} IN
               IF A = {} THEN "none" ELSE ke[CHOOSE i \in A : \A k \in A : k <= i]
-KeServer(ke) == LET A == {i \in DOMAIN ke : ke[i] \in {"srv", "srvx"}} IN
+KeAlgoOK(ke) == KeAlgo(ke) \in {"aead", "aead.2.n"}
+KeServer(ke) == LET A == {i \in DOMAIN ke : ke[i] \in {"srv", "srvx"} \cup KeLvSrv} IN
               IF A = {} THEN "none" ELSE ke[CHOOSE i \in A : \A k \in A : k <= i]
+\* net.ParseIP(data.Server) = nil: not an address, the empty string, one byte
+KeServerBad(ke) == KeServer(ke) \in {"srvx", "srv.0.n", "srv.0.c", "srv.1.n", "srv.1.c"}
 
 Pad4(n) == ((n + 3) \div 4) * 4
 \* nts.NewRequestPacket + EncodePacket: 48 NTP + 36 unique id + one cookie + (8 - n) placeholders of
@@ -409,10 +451,24 @@ KeHasLong(ke) == \E i \in DOMAIN ke : CkSize(ke[i]) > MaxPacketLen - 128
 \* one ReadData step: next record symbol or the terminator; `onEom` etc. are successor builders
 KeStep(s, sc, syms, terms) ==
   LET n == Len(s.c.ke)
-      symc == IF Scripted(sc) THEN (IF n < Len(sc.ke) THEN {sc.ke[n + 1]} \cap syms ELSE {})
-              ELSE (IF n < MaxKe THEN syms ELSE {})
-      trmc == IF Scripted(sc) THEN (IF n = Len(sc.ke) THEN {sc.kt} \cap terms ELSE {}) ELSE terms
+      ke == s.c.ke
+      \* at most one length-variant record per stream; in the reduced alphabets its companions are few
+      plain == IF ~Wide /\ KeHasLv(ke) THEN syms \cap KeLvCompanions ELSE syms
+      lv == IF KeHasLv(ke) \/ (~Wide /\ \E i \in DOMAIN ke : ke[i] \notin KeLvCompanions) THEN {} ELSE KeLvSyms
+      lvt == IF KeHasLv(ke) \/ (~Wide /\ \E i \in DOMAIN ke : ke[i] \notin KeLvCompanions) THEN {} ELSE KeLvTerms
+      symc == IF Scripted(sc) THEN (IF n < Len(sc.ke) THEN {sc.ke[n + 1]} \cap (syms \cup KeLvSyms) ELSE {})
+              \* behind a skewed record the writer only ends the stream
+              ELSE (IF n < MaxKe /\ ~KeSkewed(ke) THEN plain \cup lv ELSE {})
+      trmc == IF Scripted(sc) THEN (IF n = Len(sc.ke) THEN {sc.kt} \cap (terms \cup KeLvTerms) ELSE {})
+              ELSE IF KeSkewed(ke) \/ (~Wide /\ KeHasLv(ke)) THEN {"eom", "eof0"} \cap terms
+              ELSE terms \cup lvt
   IN [sym |-> symc, trm |-> trmc]
+\* ReadData returns nil: the end-of-message record was read at a record boundary.  Skewed, with the
+\* stream ending behind the skewed record (filler 0xFF): the next "header" is FF.. (unknown critical type),
+\* or the end of the stream inside a header or a two-byte body -- an error in every case
+KeReadOK(s, t) == t = "eom" /\ ~KeSkewed(s.c.ke)
+KeReadSite(s, t) == IF KeSkewed(s.c.ke) THEN "ntske.ReadData:skew"
+                    ELSE IF t \in KeLvTerms THEN "ntske.ReadData:lv" ELSE "ntske.ReadData:" \o t
 
 (***************************************************************************)
 (* Client histories  (ipcli, sccli; IPClient / SCIONClient with            *)
@@ -556,18 +612,18 @@ CliSucc(s, sc) ==
     [] s.pc = "KeRead" ->         \* exchangeDataTLS: ReadData
         LET k == KeStep(s, sc, KeSyms, KeTerms) IN
         {[s EXCEPT !.c.ke = Append(@, y)] : y \in k.sym} \cup
-        {IF t = "eom" THEN [s EXCEPT !.c.kt = t, !.pc = "KeDone"]
-                      ELSE Fail([s EXCEPT !.c.kt = t], "ntske.ReadData:" \o t, FALSE)
+        {IF KeReadOK(s, t) THEN [s EXCEPT !.c.kt = t, !.pc = "KeDone"]
+                      ELSE Fail([s EXCEPT !.c.kt = t], KeReadSite(s, t), FALSE)
          : t \in k.trm}
     [] s.pc = "KeDone" ->         \* exchangeKeys post-conditions, then the request is built
         IF KeCookies(c.ke) = 0 THEN {Fail(s, "ntske.exchangeKeys:errNoCookies", FALSE)}
         \* repaired: a cookie that cannot fit a request is refused here ...
         ELSE IF ~PacketOverflowUnchecked /\ KeHasLong(c.ke) THEN {Fail(s, "ntske.exchangeKeys:errCookieTooLong", FALSE)}
-        ELSE IF KeAlgo(c.ke) # "aead" THEN {Fail(s, "ntske.exchangeKeys:errUnknownAlgo", FALSE)}
+        ELSE IF ~KeAlgoOK(c.ke) THEN {Fail(s, "ntske.exchangeKeys:errUnknownAlgo", FALSE)}
         \* ... and NewRequestPacket adds only as many placeholders as fit; as written EncodePacket panics
         ELSE IF PacketOverflowUnchecked /\ ReqOverflows(KeCookies(c.ke), KeFirstCookieSize(c.ke))
              THEN {Die(s, "nts.EncodePacket:overflow")}
-        ELSE IF KeServer(c.ke) = "srvx" THEN {Fail(s, "write:addr", FALSE)}   \* net.ParseIP = nil
+        ELSE IF KeServerBad(c.ke) THEN {Fail(s, "write:addr", FALSE)}   \* net.ParseIP = nil
         ELSE {[s EXCEPT !.pc = "ReqBuilt"]}
     [] s.pc = "ReqBuilt" -> {[s EXCEPT !.pc = "Await"]}   \* WriteToUDPAddrPort, ReadTXTimestamp
     [] s.pc = "Await" ->          \* ReadMsgUDPAddrPort until the deadline; flags; source address
@@ -620,8 +676,8 @@ KeSrvSucc(s, sc) ==
     [] s.pc = "Parsed" ->         \* ReadData: record by record; every error is answered with an error record
         LET k == KeStep(s, sc, KeSrvSyms, KeTermsSrv) IN
         {[s EXCEPT !.c.ke = Append(@, y)] : y \in k.sym} \cup
-        {IF t = "eom" THEN [s EXCEPT !.c.kt = t, !.pc = "Decoded"]
-                      ELSE Fail([s EXCEPT !.c.kt = t], "ntske.ReadData:" \o t, FALSE)
+        {IF KeReadOK(s, t) THEN [s EXCEPT !.c.kt = t, !.pc = "Decoded"]
+                      ELSE Fail([s EXCEPT !.c.kt = t], KeReadSite(s, t), FALSE)
          : t \in k.trm}
     [] s.pc = "Decoded" -> {[s EXCEPT !.pc = "Handled"]}   \* ExportKeys, newNTSKEMsg (8 cookies), Pack
     [] s.pc = "Handled" -> {[s EXCEPT !.pc = "Sent"]}      \* conn.Write
